@@ -84,8 +84,8 @@ type Part struct {
 	F         *float64       `json:"f,omitempty"`
 	B         *bool          `json:"b,omitempty"`
 	P         *int           `json:"p,omitempty"`
-	Strs      []string       `json:"strs,omitempty"`
-	M         map[string]int `json:"m,omitempty"`
+	Strs      []string       `json:"strs"`
+	M         map[string]int `json:"m"`
 	Set       []string       `json:"set,omitempty"`
 	NestS     *string        `json:"nest_s,omitempty"`
 	NestN     *int           `json:"nest_n,omitempty"`
